@@ -55,7 +55,7 @@ prop( 'C19', [ 'M-EXTENT', 'M-TILE', 'M-BANK', 'M-LIMIT' ],
       not_decided='disjointness/limit/reach arithmetic over all numeric inputs.',
       technique='def-use shape of the sweep loop (AST); guard conjunct classification' )
 
-prop( 'C20', [ 'T-TNET' ],
+prop( 'C20', [ 'T-TNET', 'P-CHAIN', 'G-CHUNK', 'G-REF' ],
       decides='T-TNET: every type tag dump/dump_dict/dump_list emits has a parse branch whose conversion is the enumerated inverse of '
               'the encoder idiom (same encoding name on both sides), dispatch is by exact type, payload framing splits at the first '
               'colon and slices exactly the declared length, and the streaming machine has a DATA edge for every tag its TYPE state handles.',
@@ -108,7 +108,7 @@ prop( 'C18', [ 'T-RECORD', 'X-STATES' ],
       not_decided='exactly-once / in-order / on-time delivery against the clock (schedule and clock dependent).',
       technique='writer/reader field-table agreement (AST patterns); state-table exhaustiveness' )
 
-prop( 'C02', [ 'G-CHUNK', 'G-FRAME', 'P-ACT', 'P-ONE', 'R-ISO', 'N-RECV', 'R-SENT', 'R-PROGRESS', 'G-PRIMS' ],
+prop( 'C02', [ 'G-CHUNK', 'G-FRAME', 'P-ACT', 'P-ONE', 'P-CHAIN', 'R-ISO', 'N-RECV', 'R-SENT', 'R-PROGRESS', 'G-PRIMS' ],
       decides='G-CHUNK: in the stream-fed machines (enip_machine incl. enip_header; tnet_machine) no state has both an input edge and a '
               'None edge and no transition predicate inspects the source - i.e. no state\'s successor depends on whether the next byte has '
               'arrived yet (necessary for chunk independence); G-FRAME: the header sub-graph is the single unconditional chain of the six '
